@@ -229,7 +229,10 @@ def extract_dataframe(
     point_dataset = extract_points(
         dataset, points, point_dimension=point_dimension,
         missing_points='error' if missing_points == 'error' else 'drop')
-    coord_dataset = _dataframe_to_dataset(dataframe, dimension_name=point_dimension)
+    # Points are numbered by their row number in the dataframe,
+    # whatever the dataframe is indexed by.
+    coord_dataset = _dataframe_to_dataset(
+        dataframe.reset_index(drop=True), dimension_name=point_dimension)
 
     # Merge in the dataframe
     join: Literal['outer', 'inner'] = 'outer' if missing_points == 'fill' else 'inner'
